@@ -5,8 +5,8 @@ internal/zz_verif/membuf) runs identical generated op sequences on the ART and t
 them pairwise in-process after every op and prints every result; the extracted models L0 and L1
 (ocaml/membuf) recompute every result.  Oracles on the implementation: ART≡RBT (every op + full dump after
 every mutator), impl ≡ L0 on every sequence that does not revert to a tainted checkpoint, iteration strictly
-ordered and inside its bounds, handle round trip, snapshot API variants agree, stale iterators/snapshots fail
-loudly.  KNOWN FINDING F03b is classified by a precise predicate on the minimised sequence."""
+ordered and inside its bounds, handle round trip, snapshot API variants agree (incl. the batched reverse scan over the empty key, F25), empty
+non-nil bounds = unbounded (F26), every call terminates (watchdog), stale iterators/snapshots fail loudly.  KNOWN FINDING F03b is classified by a precise predicate on the minimised sequence."""
 import os, time, json, subprocess, hashlib
 import vlib
 from vlib import Verdict
@@ -32,7 +32,9 @@ def pipeline(exe, modelrun, env, args, tag):
     cmd = "set -o pipefail; %s %s | tee %s | %s > %s" % (exe, " ".join(args), drv, modelrun, mr)
     p = subprocess.run(["bash", "-c", cmd], env=env, stdout=subprocess.PIPE, stderr=subprocess.STDOUT, text=True, errors="replace", timeout=3000)
     if p.returncode != 0:
-        return None, "driver|modelrun failed rc=%d: %s" % (p.returncode, p.stdout[-800:])
+        msg = "driver|modelrun failed rc=%d (cmd: %s); stderr tail: %s" % (p.returncode, cmd, p.stdout[-1500:])
+        vlib.log("C08: " + msg)
+        return None, msg
     return (drv, mr), None
 
 
@@ -116,6 +118,7 @@ class Runner:
         write_case(f, cases)
         res, err = pipeline(self.exe, self.modelrun, self.env, ["replay", mode, f], "case-%d" % (self.n % 4))
         if err:
+            vlib.log("C08: replay batch failed: " + err[-400:])
             return None
         seqs, _, _ = parse_mr(res[1])
         pf, _, _ = parse_drv(res[0], set())
@@ -181,6 +184,24 @@ def f03b_shape(s):
 
 
 def main(tier, replay):
+    """never exits non-zero silently: an exception inside the check is printed and reported as a violation"""
+    try:
+        return _main(tier, replay)
+    except BaseException as ex:  # noqa: also KeyboardInterrupt / SystemExit from helpers
+        import traceback
+        tb = traceback.format_exc()
+        print("C08: the check itself crashed:\n" + tb[-3000:], flush=True)
+        v = Verdict(PID)
+        v.violation({"kind": "check-crashed", "correspondence": "checks/C08.py", "error": tb[-3000:]}, has_input=False)
+        rc = v.finish()
+        try:
+            vlib.write_evidence(PID, {"explanation": "check crashed: " + repr(ex)}, time.time(), violations=1, level="other")
+        except Exception:
+            pass
+        return rc or 1
+
+
+def _main(tier, replay):
     t0 = time.time()
     v = Verdict(PID)
     cov = {"checker_cmd": "coq/mk.sh theories/MemBuf/Props.vo (coqc 8.16.1, full .vo build) + Print Assumptions per theorem",
@@ -260,7 +281,8 @@ def main(tier, replay):
                 ops = opsof.get(cid, [])
                 idxs = [i for (_, i, _) in s["pf"]] + [i for (i, *_r) in s["mism"]] + [i for (i, *_r) in s["l0"]]
                 cut = ops[:min(idxs) + 1] if idxs else ops
-                mops, ms, ok = minimise(runner, cut, kind) if not replay else (cut, s, False)
+                # a call that never returns is not minimised (every candidate would wait for the watchdog again)
+                mops, ms, ok = minimise(runner, cut, kind) if not (replay or kind == "oracle:call-terminates") else (cut, s, False)
                 src = ms if (ok and ms) else s
                 obj = {"kind": kind, "sequence": cid, "case": ["\t".join(o) for o in (mops if ok else cut)], "mode": "auto" if ok else "exact",
                        "oracle_failures": [list(x) for x in src["pf"][:4]],
@@ -281,7 +303,7 @@ def main(tier, replay):
         v.violation({"kind": "proof", "theorem_or_file": gate["problems"], "what": "Coq obligations no longer check"}, has_input=False)
     evals = stats.get("ops", 0) + sum(pc.values())
     cov.update(evaluations=evals, distinct_nontrivial=stats.get("distinct_nontrivial", 0),
-               rule="seeded random op sequences per class (small alphabet incl. the empty key and 0x00/0xFF; shared prefixes > 20 bytes and keys that are prefixes of others; fan-out 3..256 below one node; values crossing the 4K/8K/16K arena blocks; entry/buffer limits; checkpoint heavy; repeated no-op flag updates = F02 regression) + directed limit sequences (key 65535/65536 bytes); every mutator followed by observers; distinct_nontrivial = sequences with >= 4 mutators and >= 1 staging/checkpoint, distinct by their mutator list",
+               rule="seeded random op sequences per class (small alphabet incl. the empty key and 0x00/0xFF; shared prefixes > 20 bytes and keys that are prefixes of others; fan-out 3..256 below one node; values crossing the 4K/8K/16K arena blocks; entry/buffer limits; checkpoint heavy; iteration bounds nil / empty non-nil / keys / neighbours; repeated no-op flag updates = F02 regression) + directed limit sequences (key 65535/65536 bytes); every mutator followed by observers; distinct_nontrivial = sequences with >= 4 mutators and >= 1 staging/checkpoint, distinct by their mutator list",
                samples=samples, traces_validated_against_impl=stats.get("seqs", 0),
                input_distribution={k: c for k, c in counts.items() if k.startswith("class:")},
                op_distribution={k: c for k, c in counts.items() if k.startswith("op:")},
